@@ -479,9 +479,9 @@ func SetSlice(dest reflect.Value, objects interface{}) error {
 
 	dest = UnpackPtrValue(dest)
 	destTyp := UnpackPtrType(dest.Type())
-	elemKind := destTyp.Elem().Kind()
-	if elemKind == reflect.Uint8 {
-		// for binary
+	if destTyp == _bytesType {
+		// for binary (only []byte itself: a named byte-slice type and a slice of a
+		// named uint8 type travel as lists and are converted like other lists)
 		dest.Set(EnsureRawValue(objects))
 		return nil
 	}
